@@ -1,0 +1,21 @@
+//go:build verif
+
+package poly1305
+
+import "golang.org/x/crypto/internal/poly1305"
+
+// Verification hooks for /verif (group aead): re-export of the hooks in
+// internal/poly1305, which cannot be imported from outside this module.
+
+type VerifState = poly1305.VerifState
+type VerifMACGeneric = poly1305.VerifMACGeneric
+
+func VerifHasAsm() bool                                 { return poly1305.VerifHasAsm() }
+func VerifInitialize(key *[32]byte) VerifState          { return poly1305.VerifInitialize(key) }
+func VerifUpdateGeneric(v *VerifState, msg []byte)      { poly1305.VerifUpdateGeneric(v, msg) }
+func VerifUpdateAsm(v *VerifState, msg []byte)          { poly1305.VerifUpdateAsm(v, msg) }
+func VerifFinalize(out *[16]byte, v *VerifState)        { poly1305.VerifFinalize(out, v) }
+func VerifNewMACGeneric(key *[32]byte) *VerifMACGeneric { return poly1305.VerifNewMACGeneric(key) }
+func VerifSumGeneric(out *[16]byte, msg []byte, key *[32]byte) {
+	poly1305.VerifSumGeneric(out, msg, key)
+}
